@@ -114,7 +114,7 @@ def gen_progs(i, stream, n_tasks, failing):
     r = core.rng(PROP, stream, i)
     isolated = r.random() < 0.5
     progs = []
-    prof = dict(PROFILE, w_provide=0, w_inject=0) if stream == "provider-free" else PROFILE
+    prof = dict(PROFILE, w_provide=0, w_inject=0) if stream.startswith("provider-free") else PROFILE
     for t in range(n_tasks):
         g = tplgen.Gen(core.rng(PROP, stream + "-prog-%d" % i, t), prof)
         progs.append(rename(g.program(isolated=isolated), "t%d" % t))
@@ -169,7 +169,7 @@ def explore(chk, stream, n_programs, grid, n_random, failing):
             if failing and uses_provide and keyerr:
                 chk.known_hit("error-path-unregisters-other-threads-references", case)
                 continue
-            if (not failing) and uses_provide and keyerr and stream != "provider-free":
+            if (not failing) and uses_provide and keyerr and not stream.startswith("provider-free"):
                 chk.known_hit("provide-bookkeeping-races", case)
                 continue
             chk.violation("impl-violates-spec", stream, case, impl=impl,
@@ -377,6 +377,7 @@ def run(tier: str) -> int:
         explore(chk, "provider-free", 10, [3, 25, 80], 6, failing=False)
         explore(chk, "healthy", 10, [3, 25, 80], 6, failing=False)
         explore(chk, "failing", 8, [3, 25, 80], 6, failing=True)
+        explore(chk, "provider-free-failing", 8, [3, 25, 80, 200], 8, failing=True)
         run_footprint(chk, 150)
         run_lru(chk, 12)
         run_assets(chk, 4)
@@ -384,6 +385,7 @@ def run(tier: str) -> int:
         explore(chk, "provider-free", 120, [1, 3, 10, 25, 50, 80, 150, 300], 30, failing=False)
         explore(chk, "healthy", 120, [1, 3, 10, 25, 50, 80, 150, 300], 30, failing=False)
         explore(chk, "failing", 120, [1, 3, 10, 25, 50, 80, 150, 300], 30, failing=True)
+        explore(chk, "provider-free-failing", 120, [1, 3, 10, 25, 50, 80, 150, 300], 30, failing=True)
         run_footprint(chk, 3000)
         run_lru(chk, 300)
         run_assets(chk, 60)
